@@ -809,7 +809,9 @@ NextPin:
 		}
 	}
 
-	err = sdb.updateHash(tx, nodeID, hashUpdate)
+	// edge points (and a new edge) only change the hash of this edge and the
+	// edges above it, not the hash of other edges the node may have (mirrored nodes)
+	err = sdb.updateEdgeHash(tx, edge, parentID, hashUpdate)
 	if err != nil {
 		rollback()
 		return fmt.Errorf("Error updating upstream hash: %v", err)
@@ -823,6 +825,19 @@ NextPin:
 	return nil
 }
 
+// updateEdgeHash applies hashUpdate to edge and all edges upstream of it
+func (sdb *DbSqlite) updateEdgeHash(tx *sql.Tx, edge data.Edge, parentID string, hashUpdate uint32) error {
+	cache := make(map[string]uint32)
+	cache[edge.ID] = edge.Hash ^ hashUpdate
+
+	err := sdb.updateHashHelper(tx, parentID, hashUpdate, cache)
+	if err != nil {
+		return err
+	}
+
+	return sdb.writeHashes(tx, cache)
+}
+
 func (sdb *DbSqlite) updateHash(tx *sql.Tx, id string, hashUpdate uint32) error {
 	// key in edgeCache is up-down
 	cache := make(map[string]uint32)
@@ -831,7 +846,11 @@ func (sdb *DbSqlite) updateHash(tx *sql.Tx, id string, hashUpdate uint32) error 
 		return err
 	}
 
-	// write update hash values back to edges
+	return sdb.writeHashes(tx, cache)
+}
+
+// writeHashes writes updated hash values back to edges
+func (sdb *DbSqlite) writeHashes(tx *sql.Tx, cache map[string]uint32) error {
 	stmt, err := tx.Prepare(`UPDATE edges SET hash = ? WHERE id = ?`)
 
 	if err != nil {
